@@ -87,7 +87,10 @@ func init() {
 			// Sequences of tags whose names have the same length: whatever the filter
 			// remembers from one tag (a verdict, a lower-cased copy of the name) must
 			// not leak into its decision about the next.
-			seps := []string{"", " ", "x\n"}
+			// (separators include characters whose lower-case form has another byte
+			// length, and an invalid byte: offsets computed on one spelling of the
+			// chunk must not be applied to another)
+			seps := []string{"", " ", "x\n", "\u0130", "\u212a", "\xff"}
 			c.Explore("tag-sequences", fmt.Sprintf("every sequence of <=3 tags from {allowed name in lower / Title / UPPER case, rejected name in lower / Title / UPPER case}, the allowed name a string of q's as long as the rejected one, for each of the %d raw-text element names, x %d separators x 3 contexts", len(rawTextNames), len(seps)), -1, 3, func(x *X) {
 				name := rawTextNames[x.ChooseFree(len(rawTextNames))]
 				allowed := strings.Repeat("q", len(name))
